@@ -99,7 +99,7 @@ class C01(Prop):
             if r["after"] is None:
                 return {"model_error": f"model rule {s['rule']} not applicable at {s['path']}", "step": s}
             if not r.get("side", True):
-                return {"model_error": f"side condition of the pull theorem (every launch stays total) fails on this step", "step": s}
+                return {"model_error": f"side condition of the step theorem (pull: every launch stays total; dce: results unused) fails on this step", "step": s}
             if not r["wf"] or not r["nodup"]:
                 return {"model_error": "program violates the theorems' well-formedness predicate"}
             ms = dict(s)
